@@ -25,11 +25,13 @@ Lookup(pairs, x) == LET S == {i \in DOMAIN pairs : pairs[i].k = x} IN
 (* history clauses shared by all deterministic loaders (C06: entry point = direct construction;
    the entry point's second create_jdd must not change the table) *)
 History(t) ==
-    {c \in {"second_create_changes_table", "entry_point_differs", "entry_point_raised", "second_create_raised"} :
+    {c \in {"second_create_changes_table", "entry_point_differs", "entry_point_raised", "second_create_raised",
+            "table_of_an_earlier_loader_changed"} :
        CASE c = "second_create_changes_table" -> t.have_second /\ Tab(t.second) # Tab(t.first)
          [] c = "entry_point_differs" -> t.have_entry /\ Tab(t.entry) # Tab(t.first)
          [] c = "entry_point_raised" -> t.entry_raised # ""
-         [] c = "second_create_raised" -> t.second_raised # ""}
+         [] c = "second_create_raised" -> t.second_raised # ""
+         [] c = "table_of_an_earlier_loader_changed" -> t.earlier_changed}      \* loaders are independent objects
 
 Basic(t) == IF ~AllOk(t.first) THEN {"value_not_a_multiple_of_dictated_denominator"}
             ELSE IF ~NoDupKeys(t.first) THEN {"duplicate_keys"}
